@@ -39,6 +39,9 @@ type Event struct {
 
 func (e Event) String() string { return e.Name + ": " + e.Op.String() }
 
+// ErrEventOverflow is reported on Errors when the kernel queue overflowed.
+var ErrEventOverflow = errors.New("fsnotify queue overflow")
+
 type Watcher struct {
 	Events chan Event
 	Errors chan error
